@@ -731,7 +731,31 @@ func (c *Ctx) typeTag(t types.Type) int {
 	for _, it := range c.ifaces {
 		c.implFact(t, n, it)
 	}
+	c.decl("comparable", "(declare-fun comparable (Int) Bool)")
+	if types.Comparable(t) {
+		c.decls = append(c.decls, fmt.Sprintf("(assert (comparable %d))", n))
+	} else {
+		c.decls = append(c.decls, fmt.Sprintf("(assert (not (comparable %d)))", n))
+	}
 	return n
+}
+
+// comparableCond: condition under which a == b does not panic (Go spec: comparing interface
+// values with identical, non-comparable dynamic types panics; likewise inside structs).
+func (c *Ctx) comparableCond(t types.Type, a, b string) string {
+	switch u := t.Underlying().(type) {
+	case *types.Interface:
+		c.decl("comparable", "(declare-fun comparable (Int) Bool)")
+		return fmt.Sprintf("(=> (and (= (if_tag %s) (if_tag %s)) (not (= (if_tag %s) 0))) (comparable (if_tag %s)))", a, b, a, a)
+	case *types.Struct:
+		var cs []string
+		for i := 0; i < u.NumFields(); i++ {
+			sel := c.selName(t, i)
+			cs = append(cs, c.comparableCond(u.Field(i).Type(), fmt.Sprintf("(%s %s)", sel, a), fmt.Sprintf("(%s %s)", sel, b)))
+		}
+		return and(cs...)
+	}
+	return "true"
 }
 
 func (c *Ctx) implFact(t types.Type, tag int, iface types.Type) {
